@@ -1,18 +1,36 @@
-"""C11 - ill-formed designs are rejected, well-formed ones accepted."""
+"""C11 - ill-formed designs are rejected, well-formed ones accepted.
+
+Every rejection is reached under a guard *equivalent* to the stated predicate: equivalence covers both the
+rejection of the bad designs and the acceptance of the good ones (exclusive alternatives, nonexclusive repeats).
+"""
 
 from . import core, core2, core3
 
+M = core.MANAGER
+
 
 def check(ctx):
-    core3.tmodule_control_table(ctx, "C11", True, True)
-    core3.tmodule_domains(ctx, "C11")
-    core3.top_module_helper(ctx, "C11")
-    core3.ctrl_path_builder(ctx, "C11")
-    core3.exclusive_with(ctx, "C11")
-    core3.call_paths_exclusive(ctx, "C11")
     core3.mm_validate_call_tree(ctx, "C11")
+    core3.call_paths_exclusive(ctx, "C11")
+    core3.exclusive_with(ctx, "C11")
+    core3.ctrl_path_builder(ctx, "C11")
+    core3.tmodule_control_table(ctx, "C11", want_enter=True, want_mirror=False)
     core3.mgr_rejections(ctx, "C11")
-    core3.cg_self_pair(ctx, "C11")
+    core.cg_priority_edges(ctx, "C11")
+    core2.mgr_ready_dependencies(ctx, "C11")
 
 
-MUTANTS = []
+MUTANTS = [
+    ("double-call-only-direct", M, "                        for old_ancestors, old_call_path in call_sights[method]:\n", "                        for old_ancestors, old_call_path in call_sights[method][:1]:\n"),
+    ("double-call-rejects-nonexclusive", M, "if not method.nonexclusive and not call_paths_exclusive(old_call_path, new_call_path):", "if not call_paths_exclusive(old_call_path, new_call_path):"),
+    ("double-call-rejects-alternatives", M, "if not method.nonexclusive and not call_paths_exclusive(old_call_path, new_call_path):", "if not method.nonexclusive:"),
+    ("recursion-check-after-descent", M, "                        if method in ancestors:\n                            report_cycle(method, new_ancestors)\n", "                        if method in ancestors and len(ancestors) > 8:\n                            report_cycle(method, new_ancestors)\n"),
+    ("report-cycle-silent", M, "            msg += f\"\\n{path_str(ancestors[ancestors.index(method) :])}\"\n            raise RuntimeError(msg)", "            msg += f\"\\n{path_str(ancestors[ancestors.index(method) :])}\"\n            print(msg)"),
+    ("validate-only-transactions", M, "        for obj in chain(methods, transactions):\n            validate_root_call_tree(obj._body)", "        for obj in transactions:\n            validate_root_call_tree(obj._body)"),
+    ("single-caller-never", M, "if method.single_caller and len(method_args[method]) > 1:", "if method.single_caller and len(method_args[method]) > 2:"),
+    ("single-caller-always", M, "if method.single_caller and len(method_args[method]) > 1:", "if len(method_args[method]) > 1:"),
+    ("deadlock-check-wrong-graph", M, "                if dep in cgr[transaction]:\n                    raise RuntimeError(", "                if dep in cgr[dep]:\n                    raise RuntimeError("),
+    ("else-pushes", core.TMODULE, "            with self.avoiding_module.Else():\n                with self.path_builder.enter(EnterType.ADD):", "            with self.avoiding_module.Else():\n                with self.path_builder.enter(EnterType.PUSH):"),
+    ("pop-only-push", core.TMODULE, "if enter_type in [et.PUSH, et.ADD]:", "if enter_type in [et.PUSH]:"),
+    ("prio-graph-not-sorted", M, "networkx.lexicographical_topological_sort(networkx.DiGraph(pgr).reverse(), key=lambda t: len(cgr[t]))", "sorted(pgr, key=lambda t: len(cgr[t]))"),
+]
